@@ -116,7 +116,7 @@ def compare_views(ctx, obj, norm, views, what, tagp="stale"):
 
 # ------------------------------------------------------------------------------------------------ object histories
 MUTATORS = ["setP", "setPw", "setW", "setkv", "delta", "sample", "insert", "refine", "remove", "reverse", "transpose", "flip",
-            "translate", "rotate", "scale", "redefine", "copy_edit", "ops_copy", "evaluate_range", "degree", "refused", "noop"]
+            "translate", "rotate", "scale", "redefine", "copy_edit", "ops_copy", "evaluate_range", "degree", "refused", "convert_side", "noop"]
 
 
 @st.composite
@@ -382,6 +382,19 @@ def apply_mutator(obj, s, st_, ctx):
             return obj, None
         obj.evaluate()
         return obj, m
+    if m == "convert_side":
+        # a converted twin (B-spline <-> NURBS) is made and edited on the side; the history continues on the source
+        from geomdl import convert
+        if obj.rational:
+            if any(w != 1.0 for w in obj.weights):
+                return obj, None
+            twin = convert.nurbs_to_bspline(obj)
+        else:
+            twin = convert.bspline_to_nurbs(obj)
+        if twin is obj:
+            return obj, None
+        twin.ctrlpts = _pts(count, dim, s["ints"][1] + 5)
+        return obj, m
     if m == "refused":
         # an edit the library refuses: whatever it leaves behind is still a definition whose views are consistent
         which = s["ints"][0] % 4
@@ -394,7 +407,7 @@ def apply_mutator(obj, s, st_, ctx):
                 else:
                     obj.knotvector_u = bad
             elif which == 1 and obj.rational:
-                obj.set_ctrlpts([q[:2] for q in build.stored_points(obj)], *szs)          # too few coordinates for a rational shape
+                obj.set_ctrlpts([q[:3 if pd == 3 else 2] for q in build.stored_points(obj)], *szs)          # too few coordinates for a rational shape
             elif which == 2 and pd >= 2:
                 k_ = s["k"] % pd
                 small = list(szs)
